@@ -42,11 +42,11 @@ META = dict(
 META['theorems'] = ['Onsager.C26.' + t for t in (
     'mem_pairs_symmEquiv', 'mem_pairs_symmEquiv_closed', 'symmEquiv_pairs_nodup', 'symmEquiv_reversal_closed',
     'symmEquiv_G_closed', 'symmEquiv_dx',
-    'omega1_cover', 'omega1_pairs_nodup', 'omega1_sound', 'omega1_exactly_once', 'omega1_class_closed',
+    'omega1_cover', 'omega1_pairs_nodup', 'omega1_sound', 'omega1_exactly_once', 'omega1_class_closed', 'omega1_jumptype',
     'omega1_dx_is_vacancy_displacement',
     'omega2_cover', 'omega2_pairs_nodup', 'omega2_sound', 'omega2_exactly_once', 'omega2_class_closed',
     'omega2_dx_is_exchange_displacement',
-    'isOuter_iff', 'prune_exact', 'vm_om1_exact', 'vm_om2_exact')]
+    'isOuter_iff', 'prune_exact', 'vm_om1_exact', 'vm_om2_exact', 'vm_exact_of_tests')]
 
 DRIVER = 'Drive/C26.lean'
 
@@ -233,7 +233,11 @@ def starset_case(ctx, B, E, name, classes, N, origin, kind):
     replay = dict(crystal=name, chem=E.chem, lattice=repr(E.crys.lattice.tolist()),
                   basis=repr([[list(map(float, u)) for u in b] for b in E.crys.basis]),
                   jumpnetwork_lattice_form=classes, Nshells=N, originstates=origin, network=kind)
-    S = K.make_starset(E, classes, N, origin)
+    try:
+        S = K.make_starset(E, classes, N, origin)
+    except Exception as e:
+        ctx.violation('generate:raises:' + type(e).__name__, '%s: StarSet construction raised %r' % (what, e), replay)
+        return
     keys, _ = K.impl_view(S)
     try:
         t1 = S.jumpnetwork_omega1()
@@ -338,7 +342,7 @@ def run(ctx, search_mode=False):
             njump = sum(len(c) for c in classes)
             heavy = njump * E.n >= 24
             if ctx.quick and label != 'nn1' and njump * E.n > 30: continue
-            B.ask(K.net_line(classes), lambda a, l: None)
+            K.ask_net(ctx, B, E, name, classes, label)
             # StarSet level, unpruned
             Ns = [1, 2] if (ctx.quick and heavy) else [1, 2, 3]
             if not ctx.quick and not heavy: Ns = [1, 2, 3]
@@ -354,7 +358,7 @@ def run(ctx, search_mode=False):
             for _ in range(1 if ctx.quick else 2):
                 m, mk = K.malform(rng, E, classes)
                 if m:
-                    B.ask(K.net_line(m), lambda a, l: None)
+                    K.ask_net(ctx, B, E, name, m, label + '-mal-' + mk)
                     starset_case(ctx, B, E, name, m, rng.choice([1, 2]), rng.random() < 0.5, label + '-mal-' + mk)
         B.flush()
     B.finish()
